@@ -3,32 +3,50 @@
 -/
 import TB.Spec.ExportSpec
 import TB.Lemmas.Run
+import TB.Lemmas.RunB
 namespace TB
-
+open TB.RB
 /-- a path argument the tool must refuse -/
 def BadArg (fs : Fs) (a : PathArg) : Prop := a.absolute = false ∨ fs.look a.path ≠ .dir
 
 /-- no torrents: success, nothing touched, nothing even looked at -/
 theorem C16_empty (H : Bytes → Bytes) (inp : RunIn) (h : inp.torrents = []) :
     (run H inp).result = .ok () ∧ (run H inp).ops = [] ∧ (run H inp).fs = inp.fs := by
-  sorry
+  simp [run, h]
 
 /-- validation only stats and never changes the tree -/
 theorem C16_validate_readonly (st : St) (args : List PathArg) :
     (validateAll st args).1.fs = st.fs ∧
     ∃ new, (validateAll st args).1.ops = st.ops ++ new ∧ ∀ o ∈ new, o.kind = .stat := by
-  sorry
+  exact ⟨(validateAll_spec st args).1, (validateAll_spec st args).2.2.1⟩
 
 /-- any bad scan or export path makes validation fail -/
 theorem C16_validate_detects (st : St) (args : List PathArg)
     (h : ∃ a ∈ args, BadArg st.fs a) : (validateAll st args).2 = false := by
-  sorry
+  obtain ⟨a, ha, hb⟩ := h
+  cases hv : (validateAll st args).2
+  · rfl
+  · obtain ⟨h1, h2⟩ := (validateAll_spec st args).2.2.2 hv a ha
+    rcases hb with hb | hb
+    · rw [h1] at hb; cases hb
+    · exact absurd h2 hb
 
 /-- a run given a relative, missing or non-directory scan/export path fails before touching anything -/
 theorem C16_validate (H : Bytes → Bytes) (inp : RunIn) (hne : inp.torrents ≠ [])
     (h : ∃ a ∈ inp.scan ++ [inp.exportDir], BadArg inp.fs a) :
     (run H inp).result = .err ∧ (run H inp).fs = inp.fs ∧ ∀ o ∈ (run H inp).ops, o.kind = .stat := by
-  sorry
+  have hd := C16_validate_detects ⟨inp.fs, [], inp.faults⟩ _ h
+  obtain ⟨h1, n, h2, h3⟩ := C16_validate_readonly ⟨inp.fs, [], inp.faults⟩ (inp.scan ++ [inp.exportDir])
+  unfold run
+  have : inp.torrents.isEmpty = false := by cases ht : inp.torrents <;> simp_all
+  simp only [this, Bool.false_eq_true, if_false]
+  rcases hv : validateAll ⟨inp.fs, [], inp.faults⟩ (inp.scan ++ [inp.exportDir]) with ⟨st1, ok⟩
+  rw [hv] at hd h1 h2
+  simp only at hd h1 h2
+  subst hd
+  refine ⟨rfl, h1, ?_⟩
+  show ∀ o ∈ st1.ops, _
+  rw [h2]; simpa using h3
 
 /-- evaluating a piece never reaches a panic branch when (a) any byte string hashing to the piece hash has the
     piece's length and (b) a piece with a single segment has positive length or is padding — (b) is a fact of
@@ -37,6 +55,47 @@ theorem C16_piece_total_partial (H : Bytes → Bytes) (st : St) (w : Work)
     (hlen : ∀ b, H b = w.hash → b.length = (w.segs.map (·.len)).sum)
     (hsingle : ∀ s, w.segs = [s] → s.len ≠ 0 ∨ s.ent.isPad = true) :
     (solvePiece H st w).2 ≠ .panic := by
-  sorry
+  unfold solvePiece
+  simp only
+  split
+  · simp
+  · rename_i hrej
+    split
+    · rename_i seg hseg
+      split
+      · split <;> simp
+      · rename_i hpad
+        split
+        · rename_i hnone
+          exfalso
+          rw [hseg] at hrej
+          simp [hpad, hnone] at hrej
+          rcases hsingle seg hseg with h | h
+          · exact h hrej
+          · exact hpad h
+        · rename_i paths hs
+          have hsc := scanSingle_spec H w.hash seg st paths
+          split
+          · rename_i st1 src bytes heq
+            apply writeSegs_no_panic
+            have := hlen bytes (hsc.2 src bytes (by rw [heq]))
+            rw [hseg] at this
+            simpa using Nat.le_of_eq this.symm
+          · simp
+          · simp
+          · rename_i st1 heq; exact absurd (by rw [heq]) hsc.1
+    · rename_i segs hns
+      have hpl := preload_no_panic st w.segs
+      split
+      · rename_i st1 loaded heq
+        split
+        · rename_i chosen hc
+          apply writeSegs_no_panic
+          have := hlen _ (searchProduct_some _ _ _ _ _ hc)
+          have h2 := zip_lens_le w.segs (chosen.map (·.1))
+          omega
+        · simp
+      · simp
+      · rename_i st1 heq; exact absurd (by rw [heq]) hpl
 
 end TB
